@@ -36,6 +36,7 @@ def run(repo, chk):
     chk.rule("R4", "DATA chunks: frame_size -= chunk_size with chunk_size = min(frame_size, bytes available); other frames are handled only when complete")
     chk.decline("independence from chunking / interleaving and unchanged round trip as such (relations between runs over byte strings); R1-R4 are structural necessary conditions")
     r1(repo, chk)
+    r1_qpack(repo, chk)
     r2(repo, chk)
     r3(repo, chk)
     r4(repo, chk)
@@ -106,6 +107,48 @@ def r1(repo, chk):
     ef = Fn(repo, "h3.connection:encode_frame")
     ok = [norm(c) for c in ef.calls() if call_name(c).startswith("buf.push_")] == ["buf.push_uint_var(frame_type)", "buf.push_uint_var(frame_length)", "buf.push_bytes(frame_data)"]
     chk.ob("R1", "encode_frame writes (varint type, varint length, payload), what the receive loops read", ok, "", ef.loc(ef.node))
+
+
+def r1_qpack(repo, chk):
+    """the QPACK limits each side works with are the ones the other side was told"""
+    cf = Fn(repo, H3 + "_handle_control_frame")
+    aps = cf.calls(name="self._encoder.apply_settings")
+    want = {"max_table_capacity": "Setting.QPACK_MAX_TABLE_CAPACITY", "blocked_streams": "Setting.QPACK_BLOCKED_STREAMS"}
+    ok = len(aps) == 1
+    got = {}
+    if ok:
+        for k in aps[0].keywords:
+            v = k.value
+            got[k.arg] = norm(v.args[0]) if isinstance(v, ast.Call) and call_name(v) == "settings.get" and v.args else norm(v)
+        ok = got == want
+    chk.ob("R1", "the encoder is configured from the peer's SETTINGS of the same meaning (table capacity, blocked streams)", ok, f"{got}: an encoder that believes the peer tolerates more blocked streams than it advertised makes the peer fail with QPACK_DECOMPRESSION_FAILED - only when many requests overtake the encoder stream", cf.loc(cf.node))
+    ini = Fn(repo, H3 + "__init__")
+    dec = [c for c in ini.calls(name="pylsqpack.Decoder")]
+    ok = len(dec) == 1 and [norm(a) for a in dec[0].args] == ["self._max_table_capacity", "self._blocked_streams"]
+    chk.ob("R1", "the decoder is created with the limits this endpoint advertises", ok, "", ini.loc(ini.node))
+    ls = Fn(repo, H3 + "_get_local_settings")
+    txt = " ".join(norm(st) for st in ls.stmts())
+    ok = "Setting.QPACK_MAX_TABLE_CAPACITY: self._max_table_capacity" in txt and "Setting.QPACK_BLOCKED_STREAMS: self._blocked_streams" in txt
+    chk.ob("R1", "the advertised QPACK settings are the decoder's limits", ok, "", ls.loc(ls.node))
+    # body bytes are counted where they are delivered, whichever way they reached the buffer (the C15-R4 obligation):
+    # a fragment that is delivered but not counted makes the outcome depend on how the body was split
+    from . import c15
+
+    class Sub:
+        n = 0
+
+        def ob(self, rule, key, ok, msg="", loc="", detail=None):
+            if "is preceded by `content_length +=" in key:
+                Sub.n += 1
+                return chk.ob("R4", key, ok, msg, loc, detail)
+            return ok
+
+        def count(self, *a):
+            pass
+
+    c15.r4(repo, Sub())
+    if Sub.n < 2:
+        raise AnalysisError("C14: the body-accounting obligations of C15-R4 were not generated")
 
 
 def r2(repo, chk):
